@@ -13,11 +13,11 @@ def build():
                           ldflags=["-Wl,--wrap=dlopen", "-Wl,--wrap=dlclose", "-ldl"])
     bdir = os.path.dirname(exe)
     libs = {}
-    src = os.path.join(vc.NITRO_SRC, "tests", "nitro_test_lib.cpp")
+    src = os.path.join(vc.HARNESS, "verif_lib.cpp")
     for name in ("L1", "L2"):
         so = os.path.join(bdir, "libverif_%s.so" % name.lower())
         if not os.path.exists(so) or os.path.getmtime(so) < os.path.getmtime(src):
-            p = subprocess.run([vc.CXX, "-shared", "-fPIC", "-O1", src, "-o", so], capture_output=True, text=True)
+            p = subprocess.run([vc.CXX, "-shared", "-fPIC", "-O1", "-DVERIF_LIB=" + name[1], src, "-o", so], capture_output=True, text=True)
             if p.returncode != 0:
                 raise vc.Infra("cannot build test library: " + p.stderr[-1000:])
         libs[name] = so
@@ -36,7 +36,8 @@ def cmp_step(act, to, g):
     if g["out"] != act["out"]:
         return ("missing-raise" if act["out"] != "ok" else "unexpected-" + g["out"]), "%s%s: outcome %s, specification %s (%s)" % (act["op"], act["args"], g["out"], act["out"], g.get("what", ""))
     if act["out"] == "dl_exception" and not g.get("diag"):
-        return "no-diagnostic", "%s%s: dl exception without the loader's diagnostic" % (act["op"], act["args"])
+        return "no-diagnostic", "%s%s: the dl exception does not carry the loader's diagnostic of this failure (at once %r, after another loader failure %r)" % (
+            act["op"], act["args"], vc.ub(g.get("diag_text", [])), vc.ub(g.get("diag_later", [])))
     if act["out"] == "ok" and g["val"] != act["val"]:
         return "wrong-value", "%s%s returned %r, specification %r" % (act["op"], act["args"], g["val"], act["val"])
     if g["kinds"] != [h["kind"] for h in to["holder"]]:
@@ -61,7 +62,7 @@ def replay(chk, exe, libs, cfg, nh, tag, names):
     g = tour.Graph()
     for ln in r["lines"]["EDGE"]:
         g.add(ln)
-    root = json.dumps(dict(env=({n: "<unset>" for n in names} if names else []), holder=[dict(kind="none", inst=0)] * nh, inst=[]), separators=(",", ":"), sort_keys=True)
+    root = json.dumps(dict(env=({n: "<unset>" for n in names} if names else []), holder=[dict(kind="none", inst=0, sym="")] * nh, inst=[]), separators=(",", ":"), sort_keys=True)
     paths, ncov, unreach = g.tours(root, max_len=30)
     cases = [dict(libs=libs, nh=nh, steps=[dict(op="UnsetEnv", args=[n]) for n in names] + [dict(op=g.edges[i][1]["op"], args=g.edges[i][1]["args"]) for i in p]) for p in paths]
     obs = vc.run_cases(exe, cases, chk.out, tag, per_case_timeout=10, env={"NV_A": "inherited"})
@@ -97,6 +98,7 @@ def replay(chk, exe, libs, cfg, nh, tag, names):
 def gen(rng, n):
     steps = []
     kinds = ["none"] * 4
+    libof = [""] * 4          # which library the dl object / symbol in a slot belongs to (generator's own mirror)
     vals = ["", "x", "a b", "=;", "\t", "\xe4\xf6", "--x", "very " * 20, "\x01\x7f"]
     for _ in range(n):
         r = rng.random()
@@ -121,15 +123,19 @@ def gen(rng, n):
                 steps.append(dict(op="Open", args=[h, lib]))
                 if lib != "missing":
                     kinds[h - 1] = "dl"
+                    libof[h - 1] = lib
             elif rr < 0.7 and dls:
-                pres = rng.random() < 0.7
-                steps.append(dict(op="Load", args=[h, rng.choice(dls), pres]))
-                if pres:
+                d = rng.choice(dls)
+                nm = rng.choice(["common", "common", "own_L1", "own_L2", "nowhere"])
+                steps.append(dict(op="Load", args=[h, d, nm]))
+                if nm == "common" or nm == "own_" + libof[d - 1]:
                     kinds[h - 1] = "sym"
+                    libof[h - 1] = libof[d - 1]
             else:
                 g = rng.choice(others)
                 steps.append(dict(op="Copy", args=[h, g]))
                 kinds[h - 1] = kinds[g - 1]
+                libof[h - 1] = libof[g - 1]
         else:
             same = [i + 1 for i, k in enumerate(kinds) if k == kinds[h - 1] and i + 1 != h]
             if same and rng.random() < 0.3:
@@ -139,6 +145,7 @@ def gen(rng, n):
                 else:
                     steps.append(dict(op="AssignMove", args=[h, g]))
                     kinds[g - 1] = "none"
+                libof[h - 1] = libof[g - 1]
             elif kinds[h - 1] == "sym" and rng.random() < 0.5:
                 steps.append(dict(op="Call", args=[h]))
             else:
@@ -161,7 +168,7 @@ def run(chk, replay_path):
     replay(chk, exe, libs, "MC_DlEnv_env.cfg", 1, "tour_env", ["NV_A", "NV_B"])
     replay(chk, exe, libs, "MC_DlEnv_dl%s.cfg" % ("_thorough" if chk.thorough() else ""), 4 if chk.thorough() else 3, "tour_dl", [])
     chk.exhaustive = True
-    chk.bounds["models"] = "environment: 2 names x values {'', 'x', ' sp =; '} x defaults; loader: 2 libraries + a missing one, %d holder slots, up to %d successful opens" % ((4, 3) if chk.thorough() else (3, 2))
+    chk.bounds["models"] = "environment: 2 names x values {'', 'x', ' sp =; '} x defaults; loader: 2 libraries (a common symbol, one own symbol each) + a missing one, symbol names {common, own_L1, own_L2, nowhere}, %d holder slots, up to %d successful opens" % ((4, 3) if chk.thorough() else (3, 2))
     rng = random.Random("%s/C19" % chk.seed)
     names = ["NV_A", "NV_B", "NV_LONG_" + "X" * 20]
     rc = [dict(libs=libs, nh=4, steps=[dict(op="UnsetEnv", args=[n]) for n in names] + gen(rng, rng.randint(5, 40))) for _ in range(500 if chk.tier == "quick" else 6000)]
